@@ -194,19 +194,46 @@ pub fn sweep(tier: Tier, f: &(dyn Fn(&str, &Mutant) -> (Option<Viol>, String, bo
     let ops = mutate::all_opcode_numbers();
     let res: Vec<_> = ops.par_chunks(1024).map(|c| run_set("opcode-number", c.to_vec())).collect();
     absorb(res);
-    // U-hostile
-    let host = mutate::hostile(tier.pick(3, 4), true);
-    let res: Vec<_> = host.par_chunks(4096).map(|c| run_set("hostile", c.to_vec())).collect();
+    // U-hostile: parallel over the first word, streamed (never materialised)
+    let halpha = mutate::hostile_alphabet();
+    let hlen = tier.pick(3, 5);
+    let res: Vec<_> = halpha
+        .par_iter()
+        .map(|&first| {
+            let mut v = vec![];
+            let mut oc: BTreeMap<String, u64> = BTreeMap::new();
+            let mut acc = 0u64;
+            let mut n = 0u64;
+            let mut hs = vec![];
+            mutate::hostile_each(&[first], hlen, true, &mut |m: &Mutant| {
+                let (viol, label, a) = f("hostile", m);
+                if let Some(x) = viol {
+                    if v.len() < 50 {
+                        v.push(x);
+                    }
+                }
+                *oc.entry(label).or_insert(0) += 1;
+                if a {
+                    acc += 1;
+                }
+                n += 1;
+                if hlen <= 3 {
+                    hs.push(hash(&m.bytes));
+                }
+            });
+            (v, oc, n, acc, hs)
+        })
+        .collect();
     absorb(res);
     let mut k_completed = 1;
     // k = 2 (thorough): every pair of corruptions on a reduced seed set — the second corruption is applied to
     // each first-level mutant that still has a well-formed header
     if tier == Tier::Thorough {
-        let reduced: Vec<&(Seed, Level)> = seeds.iter().filter(|(s, _)| s.id.ends_with(":min:1st") || s.id.ends_with(":full:1st")).step_by(2).collect();
+        let reduced: Vec<&(Seed, Level)> = seeds.iter().filter(|(s, _)| s.id.ends_with(":min:1st") || s.id.ends_with(":full:1st") || s.id.ends_with(":full:3rd")).collect();
         let res: Vec<_> = reduced
             .par_iter()
             .map(|(s, _)| {
-                let firsts = mutate::mutants(s, Level::Framing);
+                let firsts = mutate::mutants(s, Level::Full);
                 let mut all = vec![];
                 for m1 in firsts.iter().skip(1) {
                     if m1.bytes.len() < 28 || m1.bytes.len() % 4 != 0 {
@@ -240,7 +267,7 @@ pub fn run(tier: Tier) -> Run {
     run.set("accepted_binaries", json!(sw.accepted));
     run.set("rule", json!("seeds = every U-inst shape of every opcode (minimal and fullest shape embedded 1st, 2nd and 3rd in a module; context-dependent literals behind 11 type declarations); corruptions with k = 1: truncation at every byte, every word count 0..true+2 and 0xFFFF, deletion / duplication / surplus of every operand word, 9 substitutions per operand word, 10 hostile opcodes, header faults; all 65536 opcode numbers; every word string of length <= L over a 39-word hostile alphabet; thorough adds k = 2 on a reduced seed set. Each binary goes through the real parser with a recording consumer and through the independent reference acceptor. distinct_nontrivial = distinct binaries (by hash) longer than the header"));
     run.set("exhaustive", json!(true));
-    run.set("bounds", json!({"seeds": sw.seeds, "corruptions_k": sw.k_completed, "hostile_length": tier.pick(3, 4)}));
+    run.set("bounds", json!({"seeds": sw.seeds, "corruptions_k": sw.k_completed, "hostile_length": tier.pick(3, 5)}));
     run.set("bound_completed", json!({"corruptions": sw.k_completed}));
     run.set("samples", json!(sw.samples));
     run.assume("reference acceptor written from the SPIR-V binary format and the golden grammar (DESIGN.md A.3); which of several co-present faults is named, and the exact offset inside the declared extent, are don't-care");
